@@ -120,6 +120,21 @@ func genCapWord(r *coqfmt.Rng) string {
 	return strings.ToUpper(w[:1]) + w[1:]
 }
 
+const anyAlphabet = "abzABZ09_-.':.' /a9"
+
+func genAnyWord(r *coqfmt.Rng) string {
+	n := r.Intn(7)
+	b := make([]byte, n)
+	for i := range b {
+		if r.Chance(1, 12) {
+			b[i] = byte(r.Intn(128))
+		} else {
+			b[i] = anyAlphabet[r.Intn(len(anyAlphabet))]
+		}
+	}
+	return string(b)
+}
+
 const rawAlphabet = "abcxyzABCXYZ019_-_-aAzZ $.é"
 
 func gen(r *coqfmt.Rng, n int, tier string) []json.RawMessage {
@@ -139,6 +154,16 @@ func gen(r *coqfmt.Rng, n int, tier string) []json.RawMessage {
 			ws := make([]string, nw)
 			for j := range ws {
 				ws[j] = genWord(r)
+			}
+			if r.Chance(1, 4) {
+				// arbitrary ASCII words (outside the theorems' [a-z][a-z0-9]*): encoder and decoder are
+				// compared with the model only; exercises x/text's title casing after digits, at
+				// inner word boundaries and around mid-word punctuation
+				nw = r.Intn(5)
+				ws = make([]string, nw)
+				for j := range ws {
+					ws[j] = genAnyWord(r)
+				}
 			}
 			add(input{K: "rt", Scheme: r.Intn(6), Words: ws})
 		case x < 8:
@@ -190,7 +215,7 @@ func corpus() []json.RawMessage {
 func main() {
 	driver.Main(driver.Engine{
 		Prop: "C19", CoqImport: "Dials.Check.C19Check", CoqRun: "run_cases",
-		Rule:   "round-trip cases: scheme x random word list over [a-z][a-z0-9]* (non-trivial: >=2 words); Go names: random token lists over a capitalised-word vocabulary and the source's initialism list (non-trivial: >=2 tokens and >=1 initialism); raw: random ASCII strings through all 8 decoders (never counted non-trivial); distinct = distinct JSON inputs",
-		Gen:    gen, Run: run, Corpus: corpus(),
+		Rule: "round-trip cases: scheme x random word list over [a-z][a-z0-9]* (non-trivial: >=2 words); Go names: random token lists over a capitalised-word vocabulary and the source's initialism list (non-trivial: >=2 tokens and >=1 initialism); raw: random ASCII strings through all 8 decoders (never counted non-trivial); distinct = distinct JSON inputs",
+		Gen:  gen, Run: run, Corpus: corpus(),
 	})
 }
